@@ -261,6 +261,27 @@ def run_unit(ctx, u):
                     ctx.violation(f"{cls}|{label}|batch = stack of singles|row differs from the single-sample result", component=name, batch=B, permutation=list(perm), rows=rows, member=xs[rows[0]] if rows else None, got=out[rows[0]] if rows else list(out.shape), expected=exp[rows[0]] if rows else list(exp.shape))
                 else:
                     ctx.ok("batch = stack of singles")
+        # ---------------- large mixed batch vs singles evaluated in reverse order on a second object: a cache or
+        # state keyed too coarsely gives order-dependent answers (many members guarantee key collisions)
+        if kind in ("decoder", "encoder"):
+            try:
+                big = [gen(rng) for _ in range(40 if q else 120)]
+                f_b = remake()
+                with contextlib.redirect_stdout(io.StringIO()):
+                    out_big = f(torch.stack(big))
+                    out_big = out_big[0] if isinstance(out_big, tuple) else out_big
+                    rev = {}
+                    for i in reversed(range(len(big))):
+                        o = f_b(big[i].unsqueeze(0))
+                        rev[i] = (o[0] if isinstance(o, tuple) else o)[0]
+                exp_big = torch.stack([rev[i] for i in range(len(big))])
+                ctx.case(name, label, "big-batch-vs-reverse-singles")
+                okb = close(out_big, exp_big, exact)
+                rows = [r for r in range(len(big)) if tuple(out_big.shape) == tuple(exp_big.shape) and not close(out_big[r], exp_big[r], exact)]
+                ctx.check(okb, "batch = stack of singles", f"{cls}|{label}|batch = stack of singles|large batch differs from singles evaluated in reverse order on a second object", component=name, rows=rows[:8], member=big[rows[0]] if rows else None)
+            except Exception as e:  # noqa: BLE001
+                ctx.violation(f"{cls}|{label}|batch = stack of singles|large batch raised:{type(e).__name__}", component=name, error=str(e)[:300])
+
         # ---------------- layouts (block-structured components only)
         if not is_con:
             n_blk = n_in
